@@ -15,6 +15,12 @@ func main() { Main("c01", run) }
 
 func run(seed uint64, n int, tier string, outDir string) []*Stats {
 	r := NewRng(seed)
+	if os.Getenv("C01_ONLY") == "logical" { // debugging aid
+		sx := NewStats("c01-logical", seed)
+		glueLogical(r, sx, n)
+		sx.Finish("debug")
+		return []*Stats{sx}
+	}
 	if os.Getenv("C01_ONLY") == "asi" { // debugging aid
 		sx := NewStats("c01-asi", seed)
 		glueASI(r, sx, n)
@@ -60,6 +66,10 @@ func run(seed uint64, n int, tier string, outDir string) []*Stats {
 	glueASI(r, stasi, n/2)
 	stasi.Finish("newline-sensitive programs (hlib/jsgen_c01.go GenASI: a line ending in postfix ++/--, an expression, an operator or an assignment followed by a line starting with [ ( ` + - ++ -- / . in instanceof ?. =>; the restricted productions return / break / continue with and without label / yield / async followed by a line break): node decides what the input means (invalid combinations discarded), the output of api.Transform (pretty and minify-whitespace) must behave the same; distinct_nontrivial = distinct valid programs")
 
+	stl := NewStats("c01-logical", seed)
+	glueLogical(r, stl, n/2)
+	stl.Finish("compositions of && || ?? , ?: ! ??= ||= &&= and optional chains in every nesting (hlib/jsgen_c01.go GenLogical) over run-time operands drawn from null, undefined, 0, \"\", false, NaN, 1, \"x\", objects (the program loops over them), operands of syntactically known type (literals, + - ~ ! typeof void, arithmetic, comparison, in, instanceof, templates: what the parser's nullish/boolean analyses classify) and probe calls that show whether an operand was evaluated; used as value, as if-test and as conditional test; through api.Transform under charset x whitespace x line-limit x platform, input and output executed in node; distinct_nontrivial = distinct programs with more than 40 probe events")
+
 	// 2. behaviour through the public API (node oracle)
 	st := NewStats("c01", seed)
 	glueBehaviour(r, st, n)
@@ -67,7 +77,7 @@ func run(seed uint64, n int, tier string, outDir string) []*Stats {
 	if err := os.WriteFile(filepath.Join(outDir, "c01_cases.v"), []byte(cf.String()+extra), 0o644); err != nil {
 		panic(err)
 	}
-	return []*Stats{sts, stk, stn, stg, sth, sta, stasi, st}
+	return []*Stats{sts, stk, stn, stg, sth, sta, stasi, stl, st}
 }
 
 type tcase struct {
